@@ -573,3 +573,99 @@ func runRwm(line string, f []string) core.Outcome {
 		req.URL.Path+"\x00"+req.URL.RawPath+"\x00"+req.URL.RawQuery, secret, pre, suf, sf, sr, rr)
 	return o
 }
+
+// ---------------------------------------------------------------- a chain of consumers
+//
+// httpchain <varTmpl> <mapSource> <a|l> <P> <S> <reOut> <mapDefault> <hdrTmpl> <bodyTmpl> <X-In> <q> <secret>
+// vars {v: varTmpl} → map (source, one regexp mapping → reOut, default; destination {m}) → headers (response
+// set X-Out: hdrTmpl) → static_response (body). What one handler substituted is the next handler's DATA:
+// {http.vars.v} and {m} carry request text through four expansions. Answer: ok <body> <X-Out>.
+
+var chainTemplates = []string{
+	"{http.vars.v}", "{http.vars.v}", "{m}", "{m}", "v={http.vars.v} m={m}", "{http.request.header.X-In}", "{http.request.uri.query.q}",
+	"x{http.vars.v}", "x{http.request.uri.query.q}", "{m}|{http.vars.v}|{zz.unk}", "lit", "", "\\{m}", "{http.vars.v", "{file." + crlfFile + "}",
+}
+
+func genChain(rng *core.Rand, emit func(string)) {
+	noM := func() string {
+		for {
+			t := rng.Pick(chainTemplates)
+			if !strings.Contains(t, "{m}") {
+				return t
+			}
+		}
+	}
+	kind := rng.Pick([]string{"a", "a", "l"})
+	p, s := rng.Pick([]string{"x", "x", "", "{"}), rng.Pick([]string{"", "", "}"})
+	if kind == "l" {
+		p = rng.Pick([]string{"x", "{", "env"})
+	}
+	emit(fmt.Sprintf("httpchain %s %s %s %s %s %s %s %s %s %s %s %s", core.Hex(noM()), core.Hex(noM()), kind, core.Hex(p), core.Hex(s),
+		core.Hex(rng.Pick([]string{"cap-${1}-end", "$1", "$0", "[${1}]{http.request.header.X-In}", "lit"})), core.Hex(noM()),
+		core.Hex(rng.Pick(chainTemplates)), core.Hex(rng.Pick(chainTemplates)),
+		core.Hex(rng.Pick(consAttacker)), core.Hex(rng.Pick(consAttacker)), core.Hex(rng.Pick([]string{"S3CR3T-ENV-9942", "S3CR3T-ENV-9942", ""}))))
+}
+
+func runChain(line string, f []string) core.Outcome {
+	bad := core.Outcome{Impl: "bad-op"}
+	v, ok := unhexAll(f, map[int]bool{0: true, 3: true})
+	if !ok || !isASCII(v...) {
+		return bad
+	}
+	for _, x := range v {
+		if x == "!" {
+			return bad
+		}
+	}
+	varT, srcT, kind, p, s, reOut, defT, hdrT, bodyT, xin, q, secret := v[1], v[2], v[3], v[4], v[5], v[6], v[7], v[8], v[9], v[10], v[11], v[12]
+	pat, okp := patText(kind, p, s)
+	if !okp || strings.Contains(varT+"\x00"+srcT+"\x00"+defT, "{m}") {
+		return bad
+	}
+	mh := maphandler.Handler{Source: srcT, Destinations: []string{"{m}"}, Defaults: []string{defT},
+		Mappings: []maphandler.Mapping{{InputRegexp: pat, Outputs: []any{reOut}}}}
+	hh := headers.Handler{Response: &headers.RespHeaderOps{HeaderOps: &headers.HeaderOps{Set: http.Header{"X-Out": []string{hdrT}}}}}
+	o := core.Outcome{Tags: []string{"op:httpchain"}}
+	if mh.Provision(caddy.Context{}) != nil || mh.Validate() != nil || hh.Provision(caddy.Context{}) != nil || hh.Validate() != nil {
+		o.Impl = "err:provision"
+		return o
+	}
+	os.Setenv(secretEnv, secret)
+	defer os.Unsetenv(secretEnv)
+	consFiles()
+	req, _ := consRequest(xin, q, "/")
+	rec := httptest.NewRecorder()
+	vars := caddyhttp.VarsMiddleware{"v": varT}
+	resp := caddyhttp.StaticResponse{Body: bodyT}
+	var herr error
+	panicked := func() (pv any) {
+		defer func() { pv = recover() }()
+		herr = vars.ServeHTTP(rec, req, caddyhttp.HandlerFunc(func(w http.ResponseWriter, r *http.Request) error {
+			return mh.ServeHTTP(w, r, caddyhttp.HandlerFunc(func(w http.ResponseWriter, r *http.Request) error {
+				return hh.ServeHTTP(w, r, caddyhttp.HandlerFunc(func(w http.ResponseWriter, r *http.Request) error {
+					return resp.ServeHTTP(w, r, nextNop{})
+				}))
+			}))
+		}))
+		return nil
+	}()
+	if panicked != nil {
+		o.Impl = "panic"
+		return o
+	}
+	if herr != nil {
+		o.Impl = "err:handler"
+		return o
+	}
+	body, xout := rec.Body.String(), strings.Join(rec.Header()["X-Out"], "\x00")
+	o.Impl = "ok " + core.Hex(body) + " " + core.Hex(xout)
+	if strings.ContainsAny(xin+q, "{}") {
+		o.Tags = append(o.Tags, "attacker-value-has-braces")
+	}
+	if strings.Contains(hdrT+bodyT, "{m}") && strings.Contains(srcT, "http.vars.v") {
+		o.Tags = append(o.Tags, "chain:vars-map-out")
+	}
+	secretOracle(&o, "chain-expands-request-text", fmt.Sprintf("vars→map→headers→respond on X-In=%q q=%q", xin, q),
+		body+"\x00"+xout, secret, varT, srcT, reOut, defT, hdrT, bodyT)
+	return o
+}
